@@ -348,3 +348,60 @@ func (t *Template) Match(path string, minSS int) []Binding {
 	rec(0, 0)
 	return out
 }
+
+// MatchStrict is the reading used for completeness: "**" covers at least one
+// segment and a template without a verb does not match a path containing ':'
+// (whether ':' may be segment text is unspecified, so it is never required).
+// With "**" only in last position the result has at most one element.
+func (t *Template) MatchStrict(path string) []Binding {
+	if t.Verb == "" && strings.Contains(path, ":") {
+		return nil
+	}
+	if t.Verb != "" && strings.Count(path, ":") != 1 {
+		return nil
+	}
+	return t.Match(path, 1)
+}
+
+// Step is one trie step of a template: a literal segment or a variable /
+// wildcard with its pattern text. N is the number of path segments the step
+// covers in a given match (filled by Steps).
+type Step struct {
+	Lit  bool
+	Text string
+}
+
+// Steps returns the template as trie steps (top-level "*" and "{f}" are the
+// same step "*").
+func (t *Template) Steps() []Step {
+	var out []Step
+	for _, s := range t.Segs {
+		switch s.Kind {
+		case Lit:
+			out = append(out, Step{Lit: true, Text: s.Lit})
+		case Star:
+			out = append(out, Step{Text: "*"})
+		case StarStar:
+			out = append(out, Step{Text: "**"})
+		case Var:
+			out = append(out, Step{Text: segString(s.Pat)})
+		}
+	}
+	if t.Verb != "" {
+		out = append(out, Step{Lit: true, Text: ":" + t.Verb})
+	}
+	return out
+}
+
+// PositionKey identifies the trie node a template ends at.
+func (t *Template) PositionKey() string {
+	var parts []string
+	for _, s := range t.Steps() {
+		if s.Lit {
+			parts = append(parts, "L:"+s.Text)
+		} else {
+			parts = append(parts, "V:"+s.Text)
+		}
+	}
+	return strings.Join(parts, "|")
+}
